@@ -35,7 +35,7 @@ RELATIONS = [
     ("cp_apr:pdnr", "dense-sparse"), ("cp_apr:pdnr", "print"), ("cp_apr:pdnr", "seed"),
     ("cp_apr:pqnr", "dense-sparse"), ("cp_apr:pqnr", "print"), ("cp_apr:pqnr", "seed"),
     ("gcp:lbfgsb", "print"), ("gcp:lbfgsb", "seed"), ("gcp:sgd", "seed"), ("gcp:adam", "seed"), ("gcp:sgd", "print"),
-    ("gcp:sgd", "seed-sparse"), ("gcp:adam", "seed-sparse"),
+    ("gcp:sgd", "seed-sparse"), ("gcp:adam", "seed-sparse"), ("gcp:lbfgsb", "reused-optimizer"), ("gcp:adam", "reused-optimizer"),
 ]
 
 
@@ -192,9 +192,22 @@ def run_case(case, ctx):
         op = "cp_apr"
         ctx.feat(sub=sub)
         Xc = rng.poisson(denote(Kt) * 3).astype(float)
+        variant = [None, "empty-slice", "empty-slice+warm", "warm"][case["cseed"] % 4] if not case.get("zero_guess") else None
+        if variant and "empty-slice" in variant:
+            # slices without any count: the sparse code paths never see them, the dense ones do
+            Xc[0] = 0
+            Xc[:, -1] = 0
         Tc = ttb.tensor(Xc.copy())
         M0 = ttb.ktensor([rng.random((s, R)) + 0.1 for s in shape])
         kw = dict(algorithm=sub, maxiters=3, printinneritn=0)
+        if variant and "warm" in variant:
+            # a warm start: the result of an earlier, longer run on the same data (small KKT violations from the first iteration on)
+            try:
+                M0 = _quiet(ttb.cp_apr, Tc, R, init=M0.copy(), printitn=0, algorithm=sub, maxiters=12, printinneritn=0)[0]
+            except AssertionError:
+                pass
+            kw["maxiters"] = 8
+        ctx.feat(variant=str(variant))
         if case.get("zero_guess"):
             # inadmissible zeros in the first factor of the guess and a longer run: exercises the zero-repair step
             F0 = M0.factor_matrices[0]
@@ -245,7 +258,19 @@ def run_case(case, ctx):
             if sub == "adam":
                 return Adam(rate=1e-3, epoch_iters=3, max_iters=3, printitn=0)
             return SGD(rate=1e-3, epoch_iters=3, max_iters=3, printitn=0)
-        if rel == "seed-sparse":
+        if rel == "reused-optimizer":
+            # the optimizer object is an option like any other: what it solved before does not matter
+            opt_used, opt_fresh = mk(), mk()
+            if sub == "lbfgsb":
+                opt_used, opt_fresh = LBFGSB(maxiter=300), LBFGSB(maxiter=300)
+            other_shape = tuple(int(x) for x in rng.integers(6, 9, size=3)) if case["cseed"] % 2 else (2, 2)
+            Kt2 = ttb.ktensor([rng.random((s_, 2)) for s_ in other_shape])
+            seeded(ttb.gcp_opt, ttb.tensor(denote(Kt2) + 0.05 * rng.standard_normal(other_shape)), 2, Objectives.GAUSSIAN, opt_used, printitn=0)
+            M0g = ttb.ktensor([rng.random((s_, R)) for s_ in shape])
+            a = seeded(ttb.gcp_opt, T, R, Objectives.GAUSSIAN, opt_used, init=M0g.copy(), printitn=0)
+            b = seeded(ttb.gcp_opt, T, R, Objectives.GAUSSIAN, opt_fresh, init=M0g.copy(), printitn=0)
+            _cmp(ctx, op, denote(a[0]), denote(b[0]), "optimizer object used before vs fresh optimizer object", exact=True, other=("larger" if case["cseed"] % 2 else "smaller"))
+        elif rel == "seed-sparse":
             # sparse data and a sampler that takes fewer nonzeros / zeros than there are: every random draw of the run (starting guess,
             # sampled nonzeros, sampled zeros) must come from the global stream the seed controls
             from pyttb.gcp.samplers import GCPSampler, Samplers, StratifiedCount
